@@ -1201,6 +1201,25 @@ func (r *c12Run) round(a c12Act) {
 	if !w.exists {
 		return
 	}
+	if a.Part%4 == 2 && w.phase == groupStateCompletingRebalance {
+		// a known member changes its subscription while the rebalance is in progress, then the
+		// coordinator is restarted before anybody syncs: the assignment must follow the LATEST
+		// subscriptions
+		cl := rot[(k/2)%len(rot)]
+		if _, ok := w.members[cl.id]; ok {
+			sub := c12MaskTopics(a.Sub)
+			if !c12SameSet(sub, cl.sub) {
+				r.res.feats["changed-sub-rejoin"] = true
+				r.class("rejoin/changed-sub-in-completing-then-restart")
+			}
+			r.doJoin(cl, cl.id, sub, 0, cl.reb)
+			r.restart()
+			w = c12Peek(r.c)
+			if !w.exists {
+				return
+			}
+		}
+	}
 	if a.TMode%4 != 3 { // sometimes followers go first
 		if lc := r.clientByID(w.leader); lc != nil {
 			r.doSync(lc, lc.ownGen)
@@ -1472,6 +1491,7 @@ func c12DrawActFields(t *rapid.T, ap *c12Act) {
 		a.TMode = rapid.IntRange(0, 3).Draw(t, "order")
 		a.TAmt = rapid.IntRange(0, 1).Draw(t, "rejoinall")
 		a.Part = rapid.IntRange(0, 3).Draw(t, "staleleave")
+		a.Sub = rapid.IntRange(0, 15).Draw(t, "resub")
 	case c12KRestart:
 		a.TMode = rapid.SampledFrom([]int{0, 0, 1, 1, 2, 3}).Draw(t, "first")
 		a.Who = rapid.IntRange(0, 23).Draw(t, "who")
